@@ -385,6 +385,24 @@ def interrupt_delivery(chk: Check) -> None:
     ok = len(sites) == 1 and sites[0].op == 'set_exception' and [norm(a) for a in sites[0].call.args] == [rparam]
     chk.ob('FWD-interrupt', wi, ok, 'interrupting a waiting step fails its waiting future with the given interruption',
            node=sites[0].call if sites else wi.node, kind='reason-delivered')
+    # ... on EVERY way through interrupt() on which the waiting future is still pending (decision table over ``<future>.done()`` = False, any
+    # other test explored both ways): a guard on something else -- "an interruption was delivered before" -- makes later interruptions of a
+    # re-executed waiting state vanish, the kill / pause request is installed but the step never wakes up
+    from ..decisions import paths_under as _pu
+    from .common import waiting_future_key as _wfk
+    ffw = chk.ctx.facts.analyse(wi)
+    wn = {m.id for s_ in sites for m in ffw.cfg.nodes_containing(s_.call)}
+    lost = None
+    try:
+        for path in _pu(ffw, {f'{_wfk(prog)}.done()': False}):
+            if path[-1] is ffw.cfg.exit and not any(m.id in wn for m in path):
+                lost = path
+                break
+    except RuntimeError:
+        lost = []
+    tests_ = [m for m in (lost or []) if m.kind == 'test']
+    chk.ob('FWD-interrupt', wi, bool(sites) and lost is None, 'while the waiting future is pending every way through interrupt(reason) fails it with that reason (an interruption that is '
+           'dropped leaves the request installed and the step asleep)', node=tests_[-1].ast if tests_ else None, kind='interruption-reaches-future')
     for s in sites:
         chk.ob('FUT-multi-writer', s.func, s.guard in ('guarded', 'fresh'),
                f'{s.op} on the waiting future is {s.guard}: a second interruption (kill after pause, pause after kill) or a '
